@@ -100,7 +100,7 @@ static const char *mutate (vf_rng *r, int role)
         return "set_alpha_map(another role's image)"; } return NULL;
     case 9: if (is_bits && rp_is_indexed (im->fmt)) { int k = (int)(vf_next (r) % 2); im->palette = pal_pool[role][k]; pixman_image_set_indexed (im->img, im->palette); return "set_indexed"; } return NULL;
     case 10: if (role == 2) { lx[2].dither = (int)(vf_next (r) % 3) == 0 ? PIXMAN_DITHER_NONE : vf_chance (r, 1, 2) ? PIXMAN_DITHER_ORDERED_BAYER_8 : PIXMAN_DITHER_ORDERED_BLUE_NOISE_64; pixman_image_set_dither (im->img, lx[2].dither); return "set_dither"; } return NULL;
-    case 11: if (role == 2) { lx[2].dox = (int)vf_range (r, 0, 7); lx[2].doy = (int)vf_range (r, 0, 7); pixman_image_set_dither_offset (im->img, lx[2].dox, lx[2].doy); return "set_dither_offset"; } return NULL;
+    case 11: if (role == 2) { lx[2].dox = (int)vf_range (r, 0, vf_chance (r, 1, 2) ? 7 : 300); lx[2].doy = (int)vf_range (r, 0, vf_chance (r, 1, 2) ? 7 : 300);   /* beyond the size of either dither matrix too */ pixman_image_set_dither_offset (im->img, lx[2].dox, lx[2].doy); return "set_dither_offset"; } return NULL;
     case 12: /* set then immediately set back: must leave no trace */
         { int old = im->repeat; pixman_image_set_repeat (im->img, (old + 1) % 4); pixman_image_set_repeat (im->img, old); return "set_repeat(x) set_repeat(back)"; }
     default: { int old = im->ca; pixman_image_set_component_alpha (im->img, !old); pixman_image_set_component_alpha (im->img, old); return "set_component_alpha(x)(back)"; }
@@ -182,16 +182,30 @@ static void hist_case (long idx, vf_rng *r)
         /* ---- composite on the live images and on fresh replicas ---- */
         if (vf_chance (r, 1, 2)) L.op = ro_ops[vf_next (r) % ro_nops];
         if (vf_chance (r, 1, 3)) { static rq_request t; t = L; rq_gen_geometry (r, &t, 0); L.sx = t.sx; L.sy = t.sy; L.mx = t.mx; L.my = t.my; L.dx = t.dx; L.dy = t.dy; L.w = t.w; L.h = t.h; }
+        /* one-sided accessors for the length of one composite: a write-only pair on a destination that the request never reads (OP_SRC, whole-byte pixels,
+         * no alpha map, nobody's alpha map), a read-only pair on a bits source; put back afterwards - each is a setter call on a long-lived image */
+        int wo = 0, ro = 0; pixman_op_t saved_op = L.op;
+        if (L.dst.kind == RQ_BITS && rp_is_direct (L.dst.fmt) && !rp_is_wide (L.dst.fmt) && (L.dst.buf.bpp == 8 || L.dst.buf.bpp == 16 || L.dst.buf.bpp == 32) && !L.dst.alpha_map && lx[2].other < 0 && lx[2].holders == 0 &&
+            !lx[2].dither && (L.src.kind != RQ_BITS || (!rp_is_wide (L.src.fmt) && lx[0].other < 0)) && (!L.has_mask || L.mask.kind != RQ_BITS || (!rp_is_wide (L.mask.fmt) && lx[1].other < 0)) &&   /* 8-bit pipeline: the float one always reads the destination */
+            vf_chance (r, 1, 4)) {
+            wo = 1; L.op = PIXMAN_OP_SRC; pixman_image_set_accessors (L.dst.img, NULL, acc_write); vf_count ("write_only_accessor_composites", 1);
+            if (hk < 1200) hk += snprintf (hist + hk, sizeof hist - hk, "dst.set_accessors(NULL, writer); "); }
+        if (L.src.kind == RQ_BITS && !rp_is_float (L.src.fmt) && L.src.buf.bpp <= 32 && lx[0].holders == 0 && !L.pixbuf && vf_chance (r, 1, 8)) {
+            ro = 1; pixman_image_set_accessors (L.src.img, acc_read, NULL); vf_count ("read_only_accessor_composites", 1);
+            if (hk < 1200) hk += snprintf (hist + hk, sizeof hist - hk, "src.set_accessors(reader, NULL); "); }
         rq_request R = L;          /* records; live pointers are overwritten by rq_build */
+        if (ro) R.src.accessors = 1;
         for (int role2 = 0; role2 < 3; role2++) { rq_image *im = role_img (&R, role2); im->img = im->amap = NULL; im->live_params = NULL; memset (&im->buf, 0, sizeof im->buf); memset (&im->abuf, 0, sizeof im->abuf); }
         /* rq_build would make its own palette: keep the recorded one */
         pixman_indexed_t *keep[3] = { L.src.palette, L.mask.palette, L.dst.palette };
         int pixbuf = R.pixbuf;
         if (pixbuf) R.has_mask = 1;
         vf_rng br = *r;
-        if (!rq_build (&R, &br)) break;
+        if (!rq_build (&R, &br)) { if (wo) { pixman_image_set_accessors (L.dst.img, L.dst.accessors ? acc_read : NULL, L.dst.accessors ? acc_write : NULL); L.op = saved_op; } if (ro) pixman_image_set_accessors (L.src.img, L.src.accessors ? acc_read : NULL, L.src.accessors ? acc_write : NULL); break; }
         for (int role2 = 0; role2 < 3; role2++) { rq_image *im = role_img (&R, role2); if (role2 == 1 && (!R.has_mask || pixbuf)) continue; free (im->palette); im->palette = keep[role2]; finish_replica (im, role2); }
         apply_accessors (&R);
+        if (wo) pixman_image_set_accessors (R.dst.img, NULL, acc_write);
+        if (ro) pixman_image_set_accessors (R.src.img, acc_read, NULL);
         for (int role2 = 0; role2 < 3; role2++) { rq_image *im = role_img (&R, role2); if (role2 == 1 && (!R.has_mask || pixbuf)) continue;
             if (lx[role2].amap_acc && im->amap && im->alpha_map) pixman_image_set_accessors (im->amap, acc_read, acc_write);
             if (lx[role2].other >= 0 && im->img && role_img (&R, lx[role2].other)->img) pixman_image_set_alpha_map (im->img, role_img (&R, lx[role2].other)->img, (int16_t)im->am_x, (int16_t)im->am_y); }
@@ -228,6 +242,8 @@ static void hist_case (long idx, vf_rng *r)
         }
         for (int role2 = 0; role2 < 3; role2++) { rq_image *im = role_img (&R, role2); im->palette = NULL; }
         rq_free (&R);
+        if (wo) { pixman_image_set_accessors (L.dst.img, L.dst.accessors ? acc_read : NULL, L.dst.accessors ? acc_write : NULL); L.op = saved_op; if (hk < 1200) hk += snprintf (hist + hk, sizeof hist - hk, "dst.set_accessors(back); "); }
+        if (ro) { pixman_image_set_accessors (L.src.img, L.src.accessors ? acc_read : NULL, L.src.accessors ? acc_write : NULL); if (hk < 1200) hk += snprintf (hist + hk, sizeof hist - hk, "src.set_accessors(back); "); }
     }
     if (idx < 3) vf_sample ("program %ld: %d setters, %d composites compared; history: %.300s", idx, 30, ncomp, hist);
     for (int role = 0; role < 3; role++) { rq_image *im = role_img (&L, role); if (im->kind == RQ_BITS && rp_is_indexed (im->fmt) && (role != 1 || L.has_mask)) { if (im->palette == pal_pool[role][0]) free (pal_pool[role][1]); else { free (pal_pool[role][0]); } pal_pool[role][0] = pal_pool[role][1] = NULL; } }
